@@ -31,6 +31,12 @@ def run(repo, run, tier):
     reset_unconditional(repo, run)
     no_inplace_on_aliases(repo, run)
     callees_leave_arguments_alone(repo, run)
+    # 'a fresh system with the same settings': the kick mask the user chose survives every change of method
+    from ..report import Rejudged
+    from .c10 import kick_mask_plumbing
+    rj = Rejudged(run, {"C10.6": "C13.9"}, note="re-judged for C13: the kick mask is one of the settings reset() + integrate() must reproduce")
+    kick_mask_plumbing(repo, rj)
+    rj.finish_rejudge()
 
 
 def _integrate_writes(cm):
